@@ -29,6 +29,9 @@ package handlers
 //@   before[C09] Handler.Handle : arg1 == response && arg2.Header == request.Header && arg2.Body == request.Body
 //@   taints[C18] request.Body 1
 //@   ensures[C10] ghost.authenPass != old(ghost.authenPass) ==> request.Header.Version.MinorVersion == tq.MinorVersionOne
+//@   before[C10] Handler.Handle : typeOf(arg0) == *AuthenticateASCII ==> (body.Action == tq.AuthenActionLogin && body.Type == tq.AuthenTypeASCII && request.Header.Version.MinorVersion == tq.MinorVersionDefault)
+//@   before[C10] Handler.Handle : typeOf(arg0) == *AuthenticatePAP ==> (body.Action == tq.AuthenActionLogin && body.Type == tq.AuthenTypePAP && request.Header.Version.MinorVersion == tq.MinorVersionOne)
+//@   before[C10] Handler.Handle : typeOf(arg0) == *AuthenticateASCII || typeOf(arg0) == *AuthenticatePAP
 //@   requires a != nil && a.loggerProvider != nil && a.configProvider != nil && a.recorderWriter != nil
 
 //@ func (a *AuthenticateASCII) Handle(response tq.Response, request tq.Request)
